@@ -81,6 +81,8 @@ struct FetSim {
     stop: Option<Cancel>,
     /// `max_block_queue_size`
     k: u64,
+    /// `queued().next()` when the fetcher was started
+    start: u64,
     /// whether the engine's background tasks run (blocks get persisted) or not (they stay queued only)
     persist: bool,
 }
@@ -578,6 +580,25 @@ impl Sim {
             }
         }
         // a failed hold is followed by re-availability (or a new hand-over) of the same block
+        // fetcher family: one request per missing block, given up once the block is queued
+        if let Some(f) = &self.fet {
+            let next = f.manager.queued().next().0;
+            if let Some(n) = blocks.iter().find(|n| **n < next) {
+                out.oracle_fail("fetcher-requests-queued-block", "a block that is already queued for storage is still requested from peers",
+                    json!({"op": "case", "ops": self.case_ops, "n": n, "queued_next": next}));
+            }
+            let mut wanted: Vec<u64> = blocks.to_vec();
+            wanted.extend(self.cur_hold.keys().copied().filter(|n| *n >= next));
+            wanted.sort();
+            wanted.dedup();
+            // the window: `max_block_queue_size` block numbers above what was persisted (or stored at start)
+            let base = f.start.max(f.manager.persisted().next().0);
+            let expected: Vec<u64> = (next..base + f.k).collect();
+            if wanted != expected {
+                out.oracle_fail("fetcher-missing-block-not-requested", "the blocks requested or being fetched are not exactly the missing blocks inside the fetcher's window",
+                    json!({"op": "case", "ops": self.case_ops, "wanted": wanted, "expected": expected, "queued_next": next}));
+            }
+        }
         // no lost wake-up: the lowest offered block is not announced by a connection that sits in accept_block
         if let Some(min) = blocks.first() {
             for p in self.accs.keys() {
@@ -925,7 +946,7 @@ async fn init_fetcher(sim: &mut Sim, f: &Value) -> Value {
         .await;
     }));
     sim.q = Q::Net(fetcher);
-    sim.fet = Some(FetSim { manager, blocks: setup.blocks.clone(), first, stop: Some(stop), k, persist });
+    sim.fet = Some(FetSim { manager, blocks: setup.blocks.clone(), first, stop: Some(stop), k, start: first + pre as u64, persist });
     quiesce(&sim.q, &sim.log).await;
     let f = sim.fet.as_ref().unwrap();
     let _ = (f.k, f.persist);
